@@ -141,7 +141,7 @@ func (c Int64) POW(a, k Int64) Int64 {
 /* -------------------------------------------------------------------------- */
 func (c Int64) SQRT(a Int64) Int64 {
   x := a.GetFloat64()
-  c.SetFloat64(math.Sqrt(x))
+  c.SetFloat64(math.Pow(x, 0.5))
   return c
 }
 /* -------------------------------------------------------------------------- */
